@@ -162,15 +162,18 @@ KWNAMES = {
 def gen_case(rng, tier):
     name = rng.choice(list(SPECS))
     args = SPECS[name]["p"](rng)
-    modes = ["sample_shape", "mvmap_lanes", "vmap_keys", "jit_sample_shape"]
+    modes = ["sample_shape", "mvmap_lanes", "vmap_keys", "jit_sample_shape", "nested_lanes"]
     if name in KWNAMES:
         modes += ["kw_scalar_then_batched", "kw_batched_then_scalar"]
-    return {"dist": name, "args": list(args), "mode": rng.choice(modes),
+    return {"dist": name, "args": list(args), "args_b": list(SPECS[name]["p"](rng)), "mode": rng.choice(modes),
             "key": rng.randint(0, 2**30), "n": 3000 if tier == "quick" else 12000, "vseed": rng.randint(0, 2**30)}
 
 
 def jargs(args):
     return tuple(jnp.asarray(a, dtype=jnp.float32) for a in args)
+
+
+_LAST_B = {}
 
 
 def draw(case, key_int, n):
@@ -186,6 +189,18 @@ def draw(case, key_int, n):
     if mode == "mvmap_lanes":
         lanes = tuple(jnp.broadcast_to(x, (n,) + x.shape) for x in a)
         return gpjax.seed(gpjax.modular_vmap(lambda *p: d.sample(*p), in_axes=0))(key, *lanes)
+    if mode == "nested_lanes":
+        # two lanes with *different* parameters (args, args_b) inside an outer level that maps nothing:
+        # column j of the (repetition, lane) grid must follow lane j's parameters
+        b = jargs(case.get("args_b") or case["args"])
+        if any(x.shape != y.shape for x, y in zip(a, b)):
+            b = a
+        lanes = tuple(jnp.stack([x, y]) for x, y in zip(a, b))
+        inner = lambda: gpjax.modular_vmap(lambda *p: d.sample(*p), in_axes=0)(*lanes)
+        out = gpjax.seed(gpjax.modular_vmap(inner, in_axes=(), axis_size=n))(key)
+        _LAST_B["x"] = np.asarray(out[:, 1])
+        _LAST_B["same"] = b is a
+        return out[:, 0]
     if mode in ("kw_scalar_then_batched", "kw_batched_then_scalar"):
         # documented keyword parameters; the same distribution object is used scalar and batched in one
         # process, in both orders ("scalar / batched / sample_shape use")
@@ -432,6 +447,11 @@ def run_case(case):
                     break
                 p, what = sample_test(case, x)
                 probes["sampler_tests"] += 1
+                if case["mode"] == "nested_lanes" and p >= 1e-6:
+                    # the second lane against its own parameters
+                    cb = case if _LAST_B.get("same") else dict(case, args=case["args_b"])
+                    p, what = sample_test(cb, _LAST_B["x"])
+                    what = "lane 1 of nested lanes: " + what
                 if p >= 1e-6:
                     break
                 if stage == 0:
